@@ -112,7 +112,7 @@ def relevant_edge(prop, u):
 def build_histories(prop, uname, u, n_edges, rnd, conf):
     hs = []
     if n_edges:
-        edges, total = S.sample_edges(uname, n_edges, rnd, pred=relevant_edge(prop, u), frac=0.6)
+        edges, total = S.sample_edges(uname, n_edges, rnd, pred=relevant_edge(prop, u), frac=0.6, all_if_leq=2500)
         for h in edges:
             for v in S.with_variants(h, rnd, p_reopen=0.2 if prop in ("C04", "C16", "C11") else 0.08,
                                      p_rebuild=0.2 if prop in ("C16", "C11") else 0.05, n_events=u["n"]):
